@@ -40,6 +40,18 @@ type wcase struct {
 	Inner *wcase `json:"nested_write,omitempty"`
 	// Nested marks the inner write itself (only used for signatures)
 	Nested bool `json:"-"`
+	// Seq marks one step of a write sequence (seq.go); input is then the sequence up to this step,
+	// which is what a violation records as its replay
+	Seq   bool `json:"-"`
+	input any
+}
+
+// in is what a violation of this case records as its input.
+func (c wcase) in() any {
+	if c.input != nil {
+		return c.input
+	}
+	return c
 }
 
 type wout struct {
@@ -53,7 +65,10 @@ type wout struct {
 	ChangedOnErr bool
 	// MaskMutated: the resource's configured writable mask (the whole backing array of its Paths) changed
 	MaskMutated string
-	Inner       *wout
+	// Reused: the same FieldUpdater applied a second time to fresh copies of the same messages gave
+	// another result (an updater is built once and may serve many writes)
+	Reused string
+	Inner  *wout
 }
 
 func (o wout) text() string {
@@ -207,6 +222,18 @@ func (c wcase) runCode() wout {
 		out.Err = codeName(err)
 		out.After, out.SrcAfter = dst, src
 		out.ChangedOnErr = err != nil && !proto.Equal(dst, out.Before)
+		if err == nil {
+			dst2, src2 := proto.Clone(out.Before), proto.Clone(out.Written)
+			var err2 error
+			p2, _ := lib.Catch(func() {
+				if err2 = fu.Validate(src2); err2 == nil {
+					fu.Merge(dst2, src2)
+				}
+			})
+			if p2 || err2 != nil || !proto.Equal(dst2, dst) || !proto.Equal(src2, src) {
+				out.Reused = fmt.Sprintf("second use: panic=%v err=%v stored=%s written=%s", p2, err2, mt.CanonMsg(dst2), mt.CanonMsg(src2))
+			}
+		}
 	case "value", "collection":
 		var ropts []resource.Option
 		var wfm *fieldmaskpb.FieldMask
@@ -455,9 +482,12 @@ func (c wcase) monitor(mon *lib.Monitor, out wout) {
 	if c.Nested {
 		site += "+nested-write"
 	}
+	if c.Seq {
+		site += "+sequence"
+	}
 	W := c.effW()
 	if out.MaskMutated != "" {
-		mon.Violate(site+"/writable-mask-mutated", "a write changed the resource's configured writable mask (backing array of Paths included): "+out.MaskMutated, c, "unchanged", "changed")
+		mon.Violate(site+"/writable-mask-mutated", "a write changed the resource's configured writable mask (backing array of Paths included): "+out.MaskMutated, c.in(), "unchanged", "changed")
 	}
 
 	// classify the update mask independently of fieldmaskpb
@@ -486,6 +516,9 @@ func (c wcase) monitor(mon *lib.Monitor, out wout) {
 			}
 		}
 	}
+	if out.Reused != "" {
+		mon.Violate(site+"/reused-updater-differs", "the same FieldUpdater applied again to copies of the same stored and written messages behaved differently", c.in(), out.text(), out.Reused)
+	}
 	if out.Panic != "" {
 		// W is configuration and may be arbitrary; a panic is only charged to the write when every
 		// mask is valid for the type
@@ -496,26 +529,26 @@ func (c wcase) monitor(mon *lib.Monitor, out wout) {
 			}
 		}
 		if wOK {
-			mon.Violate(site+"/panic", "write panicked: "+out.Panic, c, "no panic", "panic")
+			mon.Violate(site+"/panic", "write panicked: "+out.Panic, c.in(), "no panic", "panic")
 		}
 		return
 	}
 	if out.Err != "" {
 		if out.ChangedOnErr {
-			mon.Violate(site+"/rejects/changed-on-error", "a rejected write changed the stored message", c, mt.CanonMsg(out.Before), mt.CanonMsg(out.After))
+			mon.Violate(site+"/rejects/changed-on-error", "a rejected write changed the stored message", c.in(), mt.CanonMsg(out.Before), mt.CanonMsg(out.After))
 		}
 		return
 	}
 	// accepted
 	if unknown != "" {
-		mon.Violate(site+"/rejects/unknown-path-accepted", "update mask names unknown path "+unknown+" but the write was accepted", c, "InvalidArgument", "OK")
+		mon.Violate(site+"/rejects/unknown-path-accepted", "update mask names unknown path "+unknown+" but the write was accepted", c.in(), "InvalidArgument", "OK")
 	}
 	if outside != "" {
-		mon.Violate(site+"/rejects/read-only-path-accepted", "update mask path "+outside+" is outside the writable fields "+W.Enc()+" but the write was accepted", c, "InvalidArgument", "OK")
+		mon.Violate(site+"/rejects/read-only-path-accepted", "update mask path "+outside+" is outside the writable fields "+W.Enc()+" but the write was accepted", c.in(), "InvalidArgument", "OK")
 	}
 	if !c.M.Nil && len(c.M.Paths) == 0 {
 		if !proto.Equal(out.After, out.Before) {
-			mon.Violate(site+"/empty-mask/changed", "an empty non-nil update mask changed the message", c, mt.CanonMsg(out.Before), mt.CanonMsg(out.After))
+			mon.Violate(site+"/empty-mask/changed", "an empty non-nil update mask changed the message", c.in(), mt.CanonMsg(out.Before), mt.CanonMsg(out.After))
 		}
 		return
 	}
@@ -585,7 +618,7 @@ func (c wcase) monitor(mon *lib.Monitor, out wout) {
 				if !W.Nil && len(W.Paths) == 0 {
 					sig += "-when-nothing-writable"
 				}
-				mon.Violate(sig, "reset-mask path "+k+" is still populated", c, "absent", a)
+				mon.Violate(sig, "reset-mask path "+k+" is still populated", c.in(), "absent", a)
 			}
 			continue
 		}
@@ -594,10 +627,10 @@ func (c wcase) monitor(mon *lib.Monitor, out wout) {
 				continue
 			}
 			if cl := frameClass(p); cl == "other" && overlap {
-				mon.Violate(site+"/parent-and-child-paths/frame", "path "+k+" is outside update∩writable and not reset, but changed", c, orAbsent(b), orAbsent(a))
+				mon.Violate(site+"/parent-and-child-paths/frame", "path "+k+" is outside update∩writable and not reset, but changed", c.in(), orAbsent(b), orAbsent(a))
 				continue
 			}
-			mon.Violate(site+"/frame/"+frameClass(p), "path "+k+" is outside update∩writable and not reset, but changed", c, orAbsent(b), orAbsent(a))
+			mon.Violate(site+"/frame/"+frameClass(p), "path "+k+" is outside update∩writable and not reset, but changed", c.in(), orAbsent(b), orAbsent(a))
 			continue
 		}
 		// inside update ∩ writable, not reset
@@ -635,7 +668,7 @@ func (c wcase) monitor(mon *lib.Monitor, out wout) {
 			if overlap {
 				class = "/parent-and-child-paths/inside/" + kind
 			}
-			mon.Violate(site+class, "path "+k+" is inside update∩writable but does not follow FieldMask update semantics", c, orAbsent(want), orAbsent(a))
+			mon.Violate(site+class, "path "+k+" is inside update∩writable but does not follow FieldMask update semantics", c.in(), orAbsent(want), orAbsent(a))
 		}
 	}
 	// presence of singular messages that no mask path is related to
@@ -664,7 +697,7 @@ func (c wcase) monitor(mon *lib.Monitor, out wout) {
 			continue
 		}
 		if hasMsgAt(before, p) != hasMsgAt(after, p) && !c.displaced(before, written, p) {
-			mon.Violate(site+"/frame/"+frameClass(p)+"/message-presence", "presence of message "+k+" changed although no mask path is related to it", c, fmt.Sprint(hasMsgAt(before, p)), fmt.Sprint(hasMsgAt(after, p)))
+			mon.Violate(site+"/frame/"+frameClass(p)+"/message-presence", "presence of message "+k+" changed although no mask path is related to it", c.in(), fmt.Sprint(hasMsgAt(before, p)), fmt.Sprint(hasMsgAt(after, p)))
 		}
 	}
 }
@@ -754,8 +787,8 @@ func genCase(g *mt.Gen, site string) wcase {
 		}
 	}
 	if g.R.Intn(4) == 0 {
-		c.R = g.MaskFrom(focus, mt.PathOpts{Corrupt: 0.03})
-		c.R.Paths = c.R.Paths[:1]
+		// one to four reset paths: parents, children, duplicates, a field together with a path inside it
+		c.R = genReset(g, focus)
 	}
 	if site != "updater" {
 		if g.R.Intn(3) == 0 {
@@ -817,7 +850,7 @@ func runCases(cases []wcase, tie *lib.Tie, mon *lib.Monitor, drv *lib.Driver) {
 		i += n
 		out := c.runCode()
 		code := out.fullText()
-		tie.Record(c.key(), c.nontrivial(), c, model, code)
+		tie.Record(c.key(), c.nontrivial(), c.in(), model, code)
 		if c.Inner != nil {
 			tie.Count("nested-write")
 		}
@@ -885,7 +918,7 @@ func runWrites(f lib.Flags, res *lib.Result, drv *lib.Driver) {
 	tie := res.Tie("writes", "K1",
 		"random (stored, written, update mask, writable, extra writable, all-writable, reset) tuples (the resource's writable mask built by four routes: literal, fieldmaskpb.Union, Append growth, proto.Unmarshal — the last three leave spare capacity in Paths; a third of the resource writes with writable fields carry a NESTED write with its own extra-writable mask issued from InterceptBefore, i.e. between the outer Validate and Merge: a no-op/rejected Set on a Value, an Update of another item on a Collection; both writes are compared with the model and monitored against W ∪ their OWN extras) over TestAllTypes and three trait messages at FieldUpdater.Validate+Merge, Value.Set and Collection.Update, compared with the Lean model's validate/merge/valueSet (outcome: error code | panic | stored-after + written-after); masks drawn from the descriptor's path tree with parents, children, duplicates, overlaps and corrupted segments; non-trivial = some mask non-nil; distinct by the whole tuple")
 	mon := res.Monitor("write-semantics",
-		"for every case: path-by-path comparison of stored-before, written and stored-after over all populated leaf paths (reset => absent; outside update∩writable => unchanged; inside => FieldMask update semantics), rejection of unknown / read-only paths with no change, empty mask => no change, no panic; the resource's configured writable mask, hidden tail paths[len:cap] included, is unchanged after every write")
+		"for every case: path-by-path comparison of stored-before, written and stored-after over all populated leaf paths (reset => absent; outside update∩writable => unchanged; inside => FieldMask update semantics), rejection of unknown / read-only paths with no change, empty mask => no change, no panic; the resource's configured writable mask, hidden tail paths[len:cap] included, is unchanged after every write; a masks.FieldUpdater used a second time on copies of the same messages gives the same result")
 	g := &mt.Gen{R: lib.NewRand(f.Seed)}
 	runCases(seededCases(), tie, mon, drv)
 	n := f.N(6000, 150000)
